@@ -84,6 +84,11 @@ func genOptsFor(profile string) GenOpts {
 		o.Focus = profile
 		o.MaxDepth = 2
 	}
+	if strings.HasPrefix(profile, "epoch:") {
+		// any profile with the window shifted so that one of its steps is at -1ms
+		o = genOptsFor(strings.TrimPrefix(profile, "epoch:"))
+		o.Epoch = true
+	}
 	return o
 }
 
